@@ -4,7 +4,137 @@ of the normal form (`norm_matches`), the postfix discipline (`postfixOk_print`).
 -/
 import Model.Print
 import Proofs.IR
+import Proofs.PrintSearch
 namespace FV
+
+/-! ### expressions: `readE ∘ printE = normE` -/
+
+theorem readEAux_sel (ts : List PS.STok) : ∀ (cur : List PS.STok) (rest : List ETok),
+    readEAux cur (ts.map .s ++ rest) = readEAux (cur ++ ts) rest := by
+  induction ts with
+  | nil => intro cur rest; simp
+  | cons t ts ih =>
+    intro cur rest
+    simp only [List.map_cons, List.cons_append, readEAux]
+    rw [ih]; simp
+
+theorem printTop_ne_nil (t : PS.Top) : PS.printTop t ≠ [] := by
+  cases t with
+  | plain s => obtain ⟨n, r, e⟩ := PS.printSel_head s; simp [PS.printTop, e]
+  | star s => simp [PS.printTop]
+  | lenBar s => simp [PS.printTop]
+  | lenStar s => simp [PS.printTop]
+
+theorem flushE_printTop (t : PS.Top) (h : PS.wfTop t = true) :
+    flushE (PS.printTop t) = some [.sel (PS.normTop t)] := by
+  have hne := printTop_ne_nil t
+  simp [flushE, hne, PS.readTop_printTop t h]
+
+theorem readE_printE : ∀ e : Expr, wfE e = true → readE (printE e) = some (normE e)
+  | [], _ => by simp [readE, printE, readEAux, flushE, normE]
+  | .code c :: r, h => by
+    have ih := readE_printE r (by simpa [wfE] using h)
+    simp only [readE] at ih
+    simp [readE, printE, readEAux, flushE, ih, normE]
+  | [.sel t], h => by
+    have ht : PS.wfTop t = true := by simpa [wfE] using h
+    simp only [readE, printE, List.append_nil]
+    have := readEAux_sel (PS.printTop t) [] []
+    simp only [List.append_nil, List.nil_append] at this
+    rw [this]
+    simp [readEAux, flushE_printTop t ht, normE]
+  | .sel t :: .code c :: r, h => by
+    simp only [wfE, Bool.and_eq_true] at h
+    have ih := readE_printE (.code c :: r) h.2
+    simp only [readE] at ih
+    simp only [readE, printE]
+    rw [readEAux_sel]
+    simp only [List.nil_append]
+    simp only [printE] at ih
+    simp only [readEAux, flushE_printTop t h.1]
+    simp only [readEAux, flushE, List.isEmpty_nil, if_true] at ih
+    cases hr : readEAux [] (printE r) with
+    | none => rw [hr] at ih; simp at ih
+    | some b =>
+      rw [hr] at ih
+      simp only [List.nil_append, Option.some.injEq] at ih
+      have hb : b = normE r := by simpa [normE] using ih
+      simp [normE, hb]
+  | .sel _ :: .sel _ :: _, h => by simp [wfE] at h
+
+theorem printE_normE : ∀ e : Expr, printE (normE e) = printE e
+  | [] => rfl
+  | .code c :: r => by simp [normE, printE, printE_normE r]
+  | .sel t :: r => by
+    have ht : PS.printTop (PS.normTop t) = PS.printTop t := by
+      cases t <;> simp [PS.normTop, PS.printTop, PS.printSel_normSel]
+    simp [normE, printE, printE_normE r, ht]
+
+theorem readB_printB (b : Bound) (h : wfB b = true) : readB (printB b) = some (normB b) := by
+  cases b with
+  | num n => rfl
+  | expr e => simp [printB, readB, readE_printE e (by simpa [wfB] using h), normB]
+
+theorem isExpr_normB (b : Bound) : (normB b).isExpr = b.isExpr := by cases b <;> rfl
+
+theorem cbMin_normCB (b : CB) : cbMin (normCB b) = cbMin b := by
+  cases b with
+  | single e => rfl
+  | range lo hi => cases lo <;> rfl
+
+theorem cbMax_normCB (b : CB) : cbMax (normCB b) = cbMax b := by
+  cases b with
+  | single e => rfl
+  | range lo hi =>
+    cases hi with
+    | none => cases lo <;> rfl
+    | some h => cases h <;> cases lo <;> rfl
+
+theorem printCB_normCB (b : CB) : printCB (normCB b) = printCB b := by
+  cases b with
+  | single e => simp [normCB, printCB, printE_normE]
+  | range lo hi =>
+    have hb : ∀ x : Bound, printB (normB x) = printB x := by
+      intro x; cases x <;> simp [normB, printB, printE_normE]
+    cases hi with
+    | none => simp [normCB, printCB, hb]
+    | some h => simp [normCB, printCB, hb]
+
+/-- the brace group of a computed repetition, read back -/
+theorem mkRep_repC (cap : Nat) (b : CB) (x : ENode) (h : wfCB cap b = true) :
+    mkRep cap (.repC (printCB b)) x = some (.crep "" x (normCB b)) := by
+  simp only [wfCB, Bool.and_eq_true] at h
+  obtain ⟨hb, hk⟩ := h
+  cases b with
+  | single e =>
+    have hk' : kindOk cap .braces 1 none = true := by simpa [cbMin, cbMax] using hk
+    simp [printCB, mkRep, readE_printE e hb, hk', normCB]
+  | range lo hi =>
+    cases hi with
+    | none =>
+      simp only [Bool.and_eq_true] at hb
+      have hl := readB_printB lo hb.2
+      have he : (normB lo).isExpr = true := by rw [isExpr_normB]; exact hb.1
+      have hk' : kindOk cap .braces (cbMin (.range (normB lo) none)) (cbMax (.range (normB lo) none)) = true := by
+        have := cbMin_normCB (.range lo none)
+        have := cbMax_normCB (.range lo none)
+        simp only [normCB, Option.map_none] at *
+        simp_all
+      simp [printCB, mkRep, readOptB, hl, mkRange, he, hk', normCB]
+    | some hi =>
+      simp only [Bool.and_eq_true] at hb
+      obtain ⟨⟨he, hwl⟩, hwh⟩ := hb
+      have hl := readB_printB lo hwl
+      have hh := readB_printB hi hwh
+      have he' : ((normB lo).isExpr || (normB hi).isExpr) = true := by
+        rw [isExpr_normB, isExpr_normB]; exact he
+      have hk' : kindOk cap .braces (cbMin (.range (normB lo) (some (normB hi))))
+          (cbMax (.range (normB lo) (some (normB hi)))) = true := by
+        have := cbMin_normCB (.range lo (some hi))
+        have := cbMax_normCB (.range lo (some hi))
+        simp only [normCB, Option.map_some] at *
+        simp_all
+      simp [printCB, mkRep, readOptB, hl, hh, mkRange, he', hk', normCB]
 
 /-! ### the reader as a fold -/
 
@@ -23,32 +153,35 @@ theorem run_append_of (cap : Nat) {a b : List PTok} {st st' : RState}
 
 /-! ### normal form: basic facts -/
 
-theorem mkCat_items : ∀ n : Node, mkCat (items n) = norm n
+theorem mkCat_items : ∀ n : ENode, mkCat (items n) = norm n
   | .term _ => rfl
   | .nt _ _ _ => rfl
   | .alt _ _ => rfl
   | .cat _ _ => rfl
   | .rep _ _ _ _ _ => rfl
+  | .crep _ _ _ => rfl
 
-theorem items_of_noncat {n : Node} (h : ∀ id ns, n ≠ .cat id ns) : items n = [norm n] := by
+theorem items_of_noncat {n : ENode} (h : ∀ id ns, n ≠ .cat id ns) : items n = [norm n] := by
   cases n with
   | term _ => rfl
   | nt _ _ _ => rfl
   | alt _ _ => rfl
   | cat id ns => exact absurd rfl (h id ns)
   | rep _ _ _ _ _ => rfl
+  | crep _ _ _ => rfl
 
 mutual
-theorem items_ne_nil (cap : Nat) : ∀ n : Node, wf cap n = true → items n ≠ []
+theorem items_ne_nil (cap : Nat) : ∀ n : ENode, wf cap n = true → items n ≠ []
   | .term _, _ => by simp [items]
   | .nt _ _ _, _ => by simp [items]
   | .alt _ _, _ => by simp [items]
   | .rep _ _ _ _ _, _ => by simp [items]
+  | .crep _ _ _, _ => by simp [items]
   | .cat _ ns, h => by
     simp only [wf, Bool.and_eq_true, Bool.not_eq_true', List.isEmpty_eq_false_iff] at h
     simp only [items]
     exact itemsL_ne_nil cap ns h.1 h.2
-theorem itemsL_ne_nil (cap : Nat) : ∀ ns : List Node, ns ≠ [] → wfL cap ns = true → itemsL ns ≠ []
+theorem itemsL_ne_nil (cap : Nat) : ∀ ns : List ENode, ns ≠ [] → wfL cap ns = true → itemsL ns ≠ []
   | [], h, _ => absurd rfl h
   | n :: ns, _, h => by
     simp only [wfL, Bool.and_eq_true] at h
@@ -60,20 +193,21 @@ end
 /-! ### is the latest operator a bare symbol after a node has been read? -/
 
 mutual
-def symOf (b : Bool) : Node → Bool
+def symOf (b : Bool) : ENode → Bool
   | .term _ => true
   | .nt _ _ _ => true
   | .alt _ _ => true
   | .rep _ _ _ _ _ => false
+  | .crep _ _ _ => false
   | .cat _ ns => symOfL b ns
-def symOfL (b : Bool) : List Node → Bool
+def symOfL (b : Bool) : List ENode → Bool
   | [] => b
   | n :: ns => symOfL (symOf b n) ns
 end
 
-def Frame.add (f : Frame) (is : List Node) (b : Bool) : Frame := ⟨f.alts, is.reverse ++ f.items, b⟩
+def Frame.add (f : Frame) (is : List ENode) (b : Bool) : Frame := ⟨f.alts, is.reverse ++ f.items, b⟩
 
-theorem closeFrame_single {is : List Node} (h : is ≠ []) (b : Bool) :
+theorem closeFrame_single {is : List ENode} (h : is ≠ []) (b : Bool) :
     closeFrame (Frame.empty.add is b) = some (mkCat is) := by
   simp only [Frame.add, Frame.empty, List.append_nil, closeFrame]
   cases hr : is.reverse with
@@ -85,7 +219,7 @@ theorem closeFrame_single {is : List Node} (h : is ≠ []) (b : Bool) :
 
 theorem mkRep_suffix (c : PrintCfg) (hc : c.openBound = true) (hS : c.starTok = .star)
     (hP : c.plusTok = .plus) (hQ : c.optTok = .quest) (cap : Nat) (k : RepKind) (mn : Nat)
-    (mx : Option Nat) (x : Node) (h : kindOk cap k mn mx = true) :
+    (mx : Option Nat) (x : ENode) (h : kindOk cap k mn mx = true) :
     mkRep cap (suffixTok c k mn mx) x = some (.rep "" k x mn mx) := by
   cases k <;> cases mx <;> simp [kindOk] at h
   · -- braces, open
@@ -107,7 +241,7 @@ theorem suffix_isPostfix (c : PrintCfg) (hS : c.starTok = .star) (hP : c.plusTok
 
 /-- a postfix token applied when the latest operator is a bare symbol -/
 theorem step_postfix (cap : Nat) (t : PTok) (ht : t.isPostfix = true) (f : Frame) (st : List Frame)
-    (x r : Node) (xs : List Node) (hi : f.items = x :: xs) (hs : f.sym = true)
+    (x r : ENode) (xs : List ENode) (hi : f.items = x :: xs) (hs : f.sym = true)
     (hr : mkRep cap t x = some r) :
     step cap (f, st) t = some ({ f with items := r :: xs, sym := false }, st) := by
   cases t <;> (try (simp [PTok.isPostfix] at ht; done)) <;> simp [step, hi, hs, hr]
@@ -115,7 +249,7 @@ theorem step_postfix (cap : Nat) (t : PTok) (ht : t.isPostfix = true) (f : Frame
 /-! ### the reader on printed tokens -/
 
 mutual
-theorem run_print (c : PrintCfg) (hc : c.Sound) (cap : Nat) : ∀ n : Node, wf cap n = true →
+theorem run_print (c : PrintCfg) (hc : c.Sound) (cap : Nat) : ∀ n : ENode, wf cap n = true →
     ∀ (f : Frame) (st : List Frame),
       run cap (f, st) (print c n) = some (f.add (items n) (symOf f.sym n), st)
   | .term (.lit l), _, f, st => by simp [print, run, step, Frame.add, Frame.push, items, symOf]
@@ -183,11 +317,40 @@ theorem run_print (c : PrintCfg) (hc : c.Sound) (cap : Nat) : ∀ n : Node, wf c
         | alt a b => simpa [items, symOf, norm, Frame.add, Frame.push] using h1
         | cat a b => simp [needsParen, hC] at hp
         | rep a b d e g => simp [needsParen, hR] at hp
+        | crep a b d => simp [needsParen, hR] at hp
     rw [run_append_of cap hop]
     have := step_postfix cap _ hpost (f.push (norm n)) st (norm n) _ f.items rfl rfl hsuf
     simp only [run, this]
     simp [Frame.push, Frame.add]
-theorem run_printCat (c : PrintCfg) (hc : c.Sound) (cap : Nat) : ∀ ns : List Node,
+  | .crep id n b, h, f, st => by
+    have hc' := hc
+    obtain ⟨hA, hC, hR, hAl, hO, hS, hP, hQ⟩ := hc
+    simp only [wf, Bool.and_eq_true] at h
+    obtain ⟨hw, hk⟩ := h
+    have hsuf := mkRep_repC cap b (norm n) hk
+    simp only [print, items, symOf]
+    have hop : run cap (f, st) (if needsParen c n then .lp :: (print c n ++ [.rp]) else print c n)
+        = some (f.push (norm n), st) := by
+      by_cases hp : needsParen c n = true
+      · simp only [hp, if_true, run, step]
+        have h1 := run_print c hc' cap n hw Frame.empty (f :: st)
+        rw [run_append_of cap h1]
+        have := closeFrame_single (items_ne_nil cap n hw) (symOf Frame.empty.sym n)
+        simp only [run, step, this, mkCat_items]
+      · simp only [hp]
+        have h1 := run_print c hc' cap n hw f st
+        cases n with
+        | term t => simpa [items, symOf, norm, Frame.add, Frame.push] using h1
+        | nt a b d => simpa [items, symOf, norm, Frame.add, Frame.push] using h1
+        | alt a b => simpa [items, symOf, norm, Frame.add, Frame.push] using h1
+        | cat a b => simp [needsParen, hC] at hp
+        | rep a b d e g => simp [needsParen, hR] at hp
+        | crep a b d => simp [needsParen, hR] at hp
+    rw [run_append_of cap hop]
+    have := step_postfix cap _ rfl (f.push (norm n)) st (norm n) _ f.items rfl rfl hsuf
+    simp only [run, this]
+    simp [Frame.push, Frame.add]
+theorem run_printCat (c : PrintCfg) (hc : c.Sound) (cap : Nat) : ∀ ns : List ENode,
     wfL cap ns = true → ∀ (f : Frame) (st : List Frame),
       run cap (f, st) (printCat c ns) = some (f.add (itemsL ns) (symOfL f.sym ns), st)
   | [], _, f, st => by simp [printCat, run, Frame.add, itemsL, symOfL]
@@ -198,7 +361,7 @@ theorem run_printCat (c : PrintCfg) (hc : c.Sound) (cap : Nat) : ∀ ns : List N
     simp only [printCat]
     rw [run_append_of cap h1, h2]
     simp [Frame.add, itemsL, symOfL, List.reverse_append, List.append_assoc]
-theorem run_printAltsTail (c : PrintCfg) (hc : c.Sound) (cap : Nat) : ∀ ns : List Node,
+theorem run_printAltsTail (c : PrintCfg) (hc : c.Sound) (cap : Nat) : ∀ ns : List ENode,
     wfL cap ns = true → ∀ (f : Frame) (st : List Frame), f.items ≠ [] →
       ∃ g, run cap (f, st) (printAltsTail c ns) = some (g, st) ∧ g.items ≠ [] ∧
         g.branches = f.branches ++ normL ns
@@ -226,22 +389,26 @@ theorem run_printAltsTail (c : PrintCfg) (hc : c.Sound) (cap : Nat) : ∀ ns : L
 end
 
 /-- **reading the printed form back**: the reader accepts and returns the normal form -/
-theorem read_print (c : PrintCfg) (hc : c.Sound) (cap : Nat) (n : Node) (h : wf cap n = true) :
+theorem read_print (c : PrintCfg) (hc : c.Sound) (cap : Nat) (n : ENode) (h : wf cap n = true) :
     read cap (print c n) = some (norm n) := by
   have h1 := run_print c hc cap n h Frame.empty []
   simp only [read, h1]
   rw [closeFrame_single (items_ne_nil cap n h), mkCat_items]
 
-/-! ### the normal form has the same language -/
+/-! ### the normal form has the same language (of the grammar node: `erase`) -/
 
-theorem matches_mkAlt (R : RegexOracle) (xs : List Node) (w : List Tok) :
-    Matches R (mkAlt xs) w ↔ MatchesAny R xs w := by
+theorem eraseL_append : ∀ a b : List ENode, eraseL (a ++ b) = eraseL a ++ eraseL b
+  | [], b => rfl
+  | x :: a, b => by simp [eraseL, eraseL_append a b]
+
+theorem matches_mkAlt (R : RegexOracle) (xs : List ENode) (w : List Tok) :
+    Matches R (erase (mkAlt xs)) w ↔ MatchesAny R (eraseL xs) w := by
   cases xs with
-  | nil => simp [mkAlt, Matches]
+  | nil => simp [mkAlt, erase, eraseL, Matches]
   | cons x xs =>
     cases xs with
-    | nil => simp [mkAlt, MatchesAny]
-    | cons y ys => simp [mkAlt, Matches]
+    | nil => simp [mkAlt, eraseL, MatchesAny]
+    | cons y ys => simp [mkAlt, erase, Matches]
 
 theorem matchesCat_single (R : RegexOracle) (x : Node) (w : List Tok) :
     MatchesCat R [x] w ↔ Matches R x w := by
@@ -250,14 +417,14 @@ theorem matchesCat_single (R : RegexOracle) (x : Node) (w : List Tok) :
   · rintro ⟨w1, w2, rfl, h, rfl⟩; simpa using h
   · intro h; exact ⟨w, [], by simp, h, rfl⟩
 
-theorem matches_mkCat (R : RegexOracle) (xs : List Node) (w : List Tok) :
-    Matches R (mkCat xs) w ↔ MatchesCat R xs w := by
+theorem matches_mkCat (R : RegexOracle) (xs : List ENode) (w : List Tok) :
+    Matches R (erase (mkCat xs)) w ↔ MatchesCat R (eraseL xs) w := by
   cases xs with
-  | nil => simp [mkCat, Matches]
+  | nil => simp [mkCat, erase, eraseL, Matches]
   | cons x xs =>
     cases xs with
-    | nil => simp only [mkCat]; exact (matchesCat_single R x w).symm
-    | cons y ys => simp [mkCat, Matches]
+    | nil => simp only [mkCat, eraseL]; exact (matchesCat_single R (erase x) w).symm
+    | cons y ys => simp [mkCat, erase, Matches]
 
 theorem matchesCat_append (R : RegexOracle) : ∀ (xs ys : List Node) (w : List Tok),
     MatchesCat R (xs ++ ys) w ↔ ∃ w1 w2, w = w1 ++ w2 ∧ MatchesCat R xs w1 ∧ MatchesCat R ys w2
@@ -275,51 +442,73 @@ theorem matchesCat_append (R : RegexOracle) : ∀ (xs ys : List Node) (w : List 
     · rintro ⟨w1, w2, rfl, ⟨u1, v1, rfl, hx, h1⟩, h2⟩
       exact ⟨u1, v1 ++ w2, by simp, hx, (matchesCat_append R xs ys (v1 ++ w2)).2 ⟨v1, w2, rfl, h1, h2⟩⟩
 
+theorem matches_rep_congr (R : RegexOracle) (a b : Node) (id1 id2 : String) (k1 k2 : RepKind)
+    (mn : Nat) (mx : Option Nat) (h : ∀ v, Matches R a v ↔ Matches R b v) (w : List Tok) :
+    Matches R (.rep id1 k1 a mn mx) w ↔ Matches R (.rep id2 k2 b mn mx) w := by
+  simp only [Matches]
+  constructor
+  · rintro ⟨k, hk, hr⟩; exact ⟨k, hk, (repOf_congr h k w).1 hr⟩
+  · rintro ⟨k, hk, hr⟩; exact ⟨k, hk, (repOf_congr h k w).2 hr⟩
+
 mutual
-theorem norm_matches (R : RegexOracle) : ∀ (n : Node) (w : List Tok),
-    Matches R (norm n) w ↔ Matches R n w
+theorem norm_matches (R : RegexOracle) : ∀ (n : ENode) (w : List Tok),
+    Matches R (erase (norm n)) w ↔ Matches R (erase n) w
   | .term _, _ => Iff.rfl
-  | .nt _ _ _, _ => by simp [norm, Matches]
+  | .nt _ _ _, _ => by simp [norm, erase, Matches]
   | .alt _ ns, w => by
-    simp only [norm, matches_mkAlt, Matches]; exact normL_matches R ns w
+    simp only [norm, matches_mkAlt, erase, Matches]; exact normL_matches R ns w
   | .cat _ ns, w => by
-    simp only [norm, matches_mkCat, Matches]; exact itemsL_matches R ns w
+    simp only [norm, matches_mkCat, erase, Matches]; exact itemsL_matches R ns w
   | .rep _ _ n mn mx, w => by
-    simp only [norm, Matches]
-    constructor
-    · rintro ⟨k, hk, hr⟩
-      exact ⟨k, hk, (repOf_congr (fun v => norm_matches R n v) k w).1 hr⟩
-    · rintro ⟨k, hk, hr⟩
-      exact ⟨k, hk, (repOf_congr (fun v => norm_matches R n v) k w).2 hr⟩
-theorem normL_matches (R : RegexOracle) : ∀ (ns : List Node) (w : List Tok),
-    MatchesAny R (normL ns) w ↔ MatchesAny R ns w
+    simp only [norm, erase]
+    exact matches_rep_congr R _ _ _ _ _ _ mn mx (fun v => norm_matches R n v) w
+  | .crep _ n b, w => by
+    simp only [norm, erase, cbMin_normCB, cbMax_normCB]
+    exact matches_rep_congr R _ _ _ _ _ _ _ _ (fun v => norm_matches R n v) w
+theorem normL_matches (R : RegexOracle) : ∀ (ns : List ENode) (w : List Tok),
+    MatchesAny R (eraseL (normL ns)) w ↔ MatchesAny R (eraseL ns) w
   | [], _ => Iff.rfl
   | n :: ns, w => by
-    simp only [normL, MatchesAny, norm_matches R n w, normL_matches R ns w]
-theorem items_matches (R : RegexOracle) : ∀ (n : Node) (w : List Tok),
-    MatchesCat R (items n) w ↔ Matches R n w
-  | .term _, w => by simp only [items]; exact matchesCat_single R _ w
+    simp only [normL, eraseL, MatchesAny, norm_matches R n w, normL_matches R ns w]
+theorem items_matches (R : RegexOracle) : ∀ (n : ENode) (w : List Tok),
+    MatchesCat R (eraseL (items n)) w ↔ Matches R (erase n) w
+  | .term _, w => by simp only [items, eraseL]; exact matchesCat_single R _ w
   | .nt _ _ _, w => by
-    simp only [items]; rw [matchesCat_single]; simp [Matches]
+    simp only [items, eraseL]; rw [matchesCat_single]; simp [erase, Matches]
   | .alt id ns, w => by
-    simp only [items]; rw [matchesCat_single, matches_mkAlt]
-    simp only [Matches]; exact normL_matches R ns w
+    simp only [items, eraseL]; rw [matchesCat_single, matches_mkAlt]
+    simp only [erase, Matches]; exact normL_matches R ns w
   | .cat _ ns, w => by
-    simp only [items, Matches]; exact itemsL_matches R ns w
+    simp only [items, erase, Matches]; exact itemsL_matches R ns w
   | .rep id k n mn mx, w => by
-    simp only [items]; rw [matchesCat_single]
+    simp only [items, eraseL]; rw [matchesCat_single]
     exact norm_matches R (.rep id k n mn mx) w
-theorem itemsL_matches (R : RegexOracle) : ∀ (ns : List Node) (w : List Tok),
-    MatchesCat R (itemsL ns) w ↔ MatchesCat R ns w
+  | .crep id n b, w => by
+    simp only [items, eraseL]; rw [matchesCat_single]
+    exact norm_matches R (.crep id n b) w
+theorem itemsL_matches (R : RegexOracle) : ∀ (ns : List ENode) (w : List Tok),
+    MatchesCat R (eraseL (itemsL ns)) w ↔ MatchesCat R (eraseL ns) w
   | [], _ => Iff.rfl
   | n :: ns, w => by
-    simp only [itemsL, matchesCat_append, MatchesCat]
+    simp only [itemsL, eraseL_append, matchesCat_append, eraseL, MatchesCat]
     constructor
     · rintro ⟨w1, w2, rfl, h1, h2⟩
       exact ⟨w1, w2, rfl, (items_matches R n w1).1 h1, (itemsL_matches R ns w2).1 h2⟩
     · rintro ⟨w1, w2, rfl, h1, h2⟩
       exact ⟨w1, w2, rfl, (items_matches R n w1).2 h1, (itemsL_matches R ns w2).2 h2⟩
 end
+
+/-- a plain IR node embedded and erased is itself -/
+theorem erase_embed : ∀ n : Node, erase (embed n) = n := by
+  intro n
+  induction n using Node.rec (motive_2 := fun ns => eraseL (embedL ns) = ns) with
+  | term t => rfl
+  | nt a b c => rfl
+  | alt id ns ih => simp [embed, erase, ih]
+  | cat id ns ih => simp [embed, erase, ih]
+  | rep id k n mn mx ih => simp [embed, erase, ih]
+  | nil => rfl
+  | cons x xs ih1 ih2 => simp [embedL, eraseL, ih1, ih2]
 
 /-! ### postfix operators follow an atom or a closing parenthesis -/
 
@@ -349,8 +538,34 @@ theorem postfixOk_snoc : ∀ (a : List PTok) (p : Option PTok) (t s : PTok), pos
     simp only [List.cons_append, postfixOk, Bool.and_eq_true] at this ⊢
     exact ⟨ha.1, this⟩
 
+/-- a postfix token behind an operand printed by `_format_operand` -/
+theorem postfixOk_operand (c : PrintCfg) (hc : c.Sound) (n : ENode) (s : PTok)
+    (ih : ∀ p, postfixOk p (print c n) = true) (p : Option PTok) :
+    postfixOk p ((if needsParen c n then .lp :: (print c n ++ [.rp]) else print c n) ++ [s]) = true := by
+  obtain ⟨hA, hC, hR, hAl, hO, hS, hP, hQ⟩ := hc
+  by_cases hp : needsParen c n = true
+  · simp only [hp, if_true]
+    refine postfixOk_snoc _ p .rp _ ?_ (getLast?_paren _) rfl
+    simp only [postfixOk, PTok.isPostfix]
+    exact postfixOk_append _ _ _ (ih _) (fun q => by simp [postfixOk, PTok.isPostfix])
+  · simp only [hp]
+    cases n with
+    | term t =>
+      cases t with
+      | lit l => exact postfixOk_snoc _ p (.lit l) _ (ih p) (by simp [print]) rfl
+      | regex i => exact postfixOk_snoc _ p (.re i) _ (ih p) (by simp [print]) rfl
+    | nt a b d =>
+      exact postfixOk_snoc _ p (.nt a b (printedRecipient b d)) _ (ih p) (by simp [print]) rfl
+    | alt a b =>
+      refine postfixOk_snoc _ p .rp _ (ih p) ?_ rfl
+      simp only [print, hA, if_true]
+      exact getLast?_paren _
+    | cat a b => simp [needsParen, hC] at hp
+    | rep a b d e g => simp [needsParen, hR] at hp
+    | crep a b d => simp [needsParen, hR] at hp
+
 mutual
-theorem postfixOk_print (c : PrintCfg) (hc : c.Sound) : ∀ (n : Node) (p : Option PTok),
+theorem postfixOk_print (c : PrintCfg) (hc : c.Sound) : ∀ (n : ENode) (p : Option PTok),
     postfixOk p (print c n) = true
   | .term (.lit _), p => by simp [print, postfixOk, PTok.isPostfix]
   | .term (.regex _), p => by simp [print, postfixOk, PTok.isPostfix]
@@ -362,42 +577,22 @@ theorem postfixOk_print (c : PrintCfg) (hc : c.Sound) : ∀ (n : Node) (p : Opti
   | .cat _ ns, p => by
     simp only [print]; exact postfixOk_printCat c hc ns p
   | .rep _ k n mn mx, p => by
-    have hc' := hc
-    obtain ⟨hA, hC, hR, hAl, hO, hS, hP, hQ⟩ := hc
-    simp only [print]
-    have ih := postfixOk_print c hc' n
-    by_cases hp : needsParen c n = true
-    · simp only [hp, if_true]
-      refine postfixOk_snoc _ p .rp _ ?_ (getLast?_paren _) rfl
-      simp only [postfixOk, PTok.isPostfix]
-      exact postfixOk_append _ _ _ (ih _) (fun q => by simp [postfixOk, PTok.isPostfix])
-    · simp only [hp]
-      cases n with
-      | term t =>
-        cases t with
-        | lit l => exact postfixOk_snoc _ p (.lit l) _ (ih p) (by simp [print]) rfl
-        | regex i => exact postfixOk_snoc _ p (.re i) _ (ih p) (by simp [print]) rfl
-      | nt a b d =>
-        exact postfixOk_snoc _ p (.nt a b (printedRecipient b d)) _ (ih p) (by simp [print]) rfl
-      | alt a b =>
-        refine postfixOk_snoc _ p .rp _ (ih p) ?_ rfl
-        simp only [print, hA, if_true]
-        exact getLast?_paren _
-      | cat a b => simp [needsParen, hC] at hp
-      | rep a b d e g => simp [needsParen, hR] at hp
-theorem postfixOk_printAlts (c : PrintCfg) (hc : c.Sound) : ∀ (ns : List Node) (p : Option PTok),
+    simp only [print]; exact postfixOk_operand c hc n _ (postfixOk_print c hc n) p
+  | .crep _ n b, p => by
+    simp only [print]; exact postfixOk_operand c hc n _ (postfixOk_print c hc n) p
+theorem postfixOk_printAlts (c : PrintCfg) (hc : c.Sound) : ∀ (ns : List ENode) (p : Option PTok),
     postfixOk p (printAlts c ns) = true
   | [], p => by simp [printAlts, postfixOk]
   | n :: ns, p => by
     simp only [printAlts]
     exact postfixOk_append _ _ _ (postfixOk_print c hc n p) (postfixOk_printAltsTail c hc ns)
-theorem postfixOk_printAltsTail (c : PrintCfg) (hc : c.Sound) : ∀ (ns : List Node) (p : Option PTok),
+theorem postfixOk_printAltsTail (c : PrintCfg) (hc : c.Sound) : ∀ (ns : List ENode) (p : Option PTok),
     postfixOk p (printAltsTail c ns) = true
   | [], p => by simp [printAltsTail, postfixOk]
   | n :: ns, p => by
     simp only [printAltsTail, postfixOk, PTok.isPostfix]
     exact postfixOk_append _ _ _ (postfixOk_print c hc n _) (postfixOk_printAltsTail c hc ns)
-theorem postfixOk_printCat (c : PrintCfg) (hc : c.Sound) : ∀ (ns : List Node) (p : Option PTok),
+theorem postfixOk_printCat (c : PrintCfg) (hc : c.Sound) : ∀ (ns : List ENode) (p : Option PTok),
     postfixOk p (printCat c ns) = true
   | [], p => by simp [printCat, postfixOk]
   | n :: ns, p => by
@@ -407,34 +602,35 @@ end
 
 /-! ### printing is stable: the node read back prints as the same text -/
 
-theorem mkCat_two (xs : List Node) (h : 2 ≤ xs.length) : mkCat xs = .cat "" xs := by
+theorem mkCat_two (xs : List ENode) (h : 2 ≤ xs.length) : mkCat xs = .cat "" xs := by
   match xs, h with
   | _ :: _ :: _, _ => rfl
 
-theorem mkAlt_two (xs : List Node) (h : 2 ≤ xs.length) : mkAlt xs = .alt "" xs := by
+theorem mkAlt_two (xs : List ENode) (h : 2 ≤ xs.length) : mkAlt xs = .alt "" xs := by
   match xs, h with
   | _ :: _ :: _, _ => rfl
 
-theorem normL_length : ∀ ns : List Node, (normL ns).length = ns.length
+theorem normL_length : ∀ ns : List ENode, (normL ns).length = ns.length
   | [] => rfl
   | _ :: ns => by simp [normL, normL_length ns]
 
-theorem printCat_append (c : PrintCfg) : ∀ a b : List Node,
+theorem printCat_append (c : PrintCfg) : ∀ a b : List ENode,
     printCat c (a ++ b) = printCat c a ++ printCat c b
   | [], b => by simp [printCat]
   | n :: a, b => by simp [printCat, printCat_append c a b]
 
 mutual
-theorem items_length_pos : ∀ n : Node, shaped n = true → 1 ≤ (items n).length
+theorem items_length_pos : ∀ n : ENode, shaped n = true → 1 ≤ (items n).length
   | .term _, _ => by simp [items]
   | .nt _ _ _, _ => by simp [items]
   | .alt _ _, _ => by simp [items]
   | .rep _ _ _ _ _, _ => by simp [items]
+  | .crep _ _ _, _ => by simp [items]
   | .cat _ ns, h => by
     simp only [shaped, Bool.and_eq_true, decide_eq_true_eq] at h
     have := itemsL_length ns h.2
     simp only [items]; omega
-theorem itemsL_length : ∀ ns : List Node, shapedL ns = true → ns.length ≤ (itemsL ns).length
+theorem itemsL_length : ∀ ns : List ENode, shapedL ns = true → ns.length ≤ (itemsL ns).length
   | [], _ => by simp [itemsL]
   | n :: ns, h => by
     simp only [shapedL, Bool.and_eq_true] at h
@@ -443,11 +639,12 @@ theorem itemsL_length : ∀ ns : List Node, shapedL ns = true → ns.length ≤ 
     simp only [itemsL, List.length_append, List.length_cons]; omega
 end
 
-theorem needsParen_norm (c : PrintCfg) : ∀ n : Node, shaped n = true →
+theorem needsParen_norm (c : PrintCfg) : ∀ n : ENode, shaped n = true →
     needsParen c (norm n) = needsParen c n
   | .term _, _ => rfl
   | .nt _ _ _, _ => rfl
   | .rep _ _ _ _ _, _ => rfl
+  | .crep _ _ _, _ => rfl
   | .alt _ ns, h => by
     simp only [shaped, Bool.and_eq_true, decide_eq_true_eq] at h
     simp only [norm]; rw [mkAlt_two _ (by rw [normL_length]; exact h.1)]; rfl
@@ -457,7 +654,7 @@ theorem needsParen_norm (c : PrintCfg) : ∀ n : Node, shaped n = true →
     simp only [norm]; rw [mkCat_two _ (by omega)]; rfl
 
 mutual
-theorem print_norm (c : PrintCfg) : ∀ n : Node, shaped n = true → print c (norm n) = print c n
+theorem print_norm (c : PrintCfg) : ∀ n : ENode, shaped n = true → print c (norm n) = print c n
   | .term (.lit _), _ => rfl
   | .term (.regex _), _ => rfl
   | .nt _ s r, _ => by cases s <;> simp [norm, print, printedRecipient]
@@ -473,7 +670,10 @@ theorem print_norm (c : PrintCfg) : ∀ n : Node, shaped n = true → print c (n
   | .rep id k n mn mx, h => by
     simp only [shaped] at h
     simp only [norm, print, needsParen_norm c n h, print_norm c n h]
-theorem printCat_items (c : PrintCfg) : ∀ n : Node, shaped n = true →
+  | .crep id n b, h => by
+    simp only [shaped] at h
+    simp only [norm, print, needsParen_norm c n h, print_norm c n h, printCB_normCB]
+theorem printCat_items (c : PrintCfg) : ∀ n : ENode, shaped n = true →
     printCat c (items n) = print c n
   | .term (.lit _), _ => by simp [items, printCat, print]
   | .term (.regex _), _ => by simp [items, printCat, print]
@@ -489,24 +689,69 @@ theorem printCat_items (c : PrintCfg) : ∀ n : Node, shaped n = true →
     have := print_norm c (.rep id k n mn mx) h
     simp only [norm] at this
     simp only [items, printCat, List.append_nil, this]
-theorem printCat_itemsL (c : PrintCfg) : ∀ ns : List Node, shapedL ns = true →
+  | .crep id n b, h => by
+    have := print_norm c (.crep id n b) h
+    simp only [norm] at this
+    simp only [items, printCat, List.append_nil, this]
+theorem printCat_itemsL (c : PrintCfg) : ∀ ns : List ENode, shapedL ns = true →
     printCat c (itemsL ns) = printCat c ns
   | [], _ => rfl
   | n :: ns, h => by
     simp only [shapedL, Bool.and_eq_true] at h
     simp only [itemsL, printCat_append, printCat, printCat_items c n h.1, printCat_itemsL c ns h.2]
-theorem printAlts_normL (c : PrintCfg) : ∀ ns : List Node, shapedL ns = true →
+theorem printAlts_normL (c : PrintCfg) : ∀ ns : List ENode, shapedL ns = true →
     printAlts c (normL ns) = printAlts c ns
   | [], _ => rfl
   | n :: ns, h => by
     simp only [shapedL, Bool.and_eq_true] at h
     simp only [normL, printAlts, print_norm c n h.1, printAltsTail_normL c ns h.2]
-theorem printAltsTail_normL (c : PrintCfg) : ∀ ns : List Node, shapedL ns = true →
+theorem printAltsTail_normL (c : PrintCfg) : ∀ ns : List ENode, shapedL ns = true →
     printAltsTail c (normL ns) = printAltsTail c ns
   | [], _ => rfl
   | n :: ns, h => by
     simp only [shapedL, Bool.and_eq_true] at h
     simp only [normL, printAltsTail, print_norm c n h.1, printAltsTail_normL c ns h.2]
 end
+
+/-! ### productions and grammars -/
+
+theorem readRule_printRule (c : PrintCfg) (hc : c.Sound) (cap : Nat) (r : Rule)
+    (h : wfRule cap r = true) : readRule cap (printRule c r) = some (normRule r) := by
+  obtain ⟨name, rhs, gen⟩ := r
+  simp only [wfRule, Bool.and_eq_true] at h
+  cases gen with
+  | none => simp [readRule, printRule, read_print c hc cap rhs h.1, normRule]
+  | some g =>
+    simp [readRule, printRule, read_print c hc cap rhs h.1, readE_printE g h.2, normRule]
+
+theorem setRule_fresh (r : Rule) : ∀ acc : List Rule, (∀ x ∈ acc, x.name ≠ r.name) →
+    setRule r acc = acc ++ [r]
+  | [], _ => rfl
+  | x :: xs, h => by
+    have hx : x.name ≠ r.name := h x (by simp)
+    simp [setRule, hx, setRule_fresh r xs (fun y hy => h y (by simp [hy]))]
+
+theorem readGAux_printG (c : PrintCfg) (hc : c.Sound) (cap : Nat) : ∀ (rs acc : List Rule),
+    wfG cap rs = true → (∀ x ∈ acc, ∀ r ∈ rs, x.name ≠ r.name) →
+    readGAux cap acc (printG c rs) = some (acc ++ normG rs)
+  | [], acc, _, _ => by simp [printG, readGAux, normG]
+  | r :: rs, acc, h, hd => by
+    simp only [wfG, Bool.and_eq_true, List.all_eq_true, bne_iff_ne, ne_eq] at h
+    obtain ⟨⟨hr, hn⟩, hrs⟩ := h
+    simp only [printG, readGAux, readRule_printRule c hc cap r hr]
+    have hf : setRule (normRule r) acc = acc ++ [normRule r] :=
+      setRule_fresh _ acc (fun x hx => by simpa [normRule] using hd x hx r (by simp))
+    rw [hf, readGAux_printG c hc cap rs (acc ++ [normRule r]) hrs]
+    · simp [normG]
+    · intro x hx y hy
+      rcases List.mem_append.1 hx with hx | hx
+      · exact hd x hx y (by simp [hy])
+      · simp only [List.mem_singleton] at hx; subst hx
+        simpa [normRule] using fun e => hn y hy e.symm
+
+theorem readG_printG (c : PrintCfg) (hc : c.Sound) (cap : Nat) (rs : List Rule)
+    (h : wfG cap rs = true) : readG cap (printG c rs) = some (normG rs) := by
+  have := readGAux_printG c hc cap rs [] h (by simp)
+  simpa [readG] using this
 
 end FV
